@@ -36,13 +36,22 @@ structure Inv12 (cfg : Cfg) (a : Acc) (s : St) : Prop where
   tnd : a.tags.Nodup
   subkey : SubKey a.unans s.reqs
 
-theorem Inv12_init (cfg : Cfg) : Inv12 cfg {} St.init := by
+theorem Inv12_fresh (cfg : Cfg) : Inv12 cfg {} St.init := by
   refine ⟨rfl, ?_, fun _ => rfl, ?_, ?_, ?_, ?_⟩
   · intro rid h; simp at h
   · intro t t' rid h; simp [St.init, tmLookup] at h
   · intro t rid h; simp [St.init, tmLookup] at h
   · simp [Acc.tags]
   · intro rid r h; simp [St.init] at h
+
+/-- at the start of a script, whatever the age of the connection -/
+theorem Inv12_init (cfg : Cfg) : Inv12 cfg (Acc.init cfg) (initSt cfg) := by
+  refine ⟨rfl, ?_, fun _ => rfl, ?_, ?_, ?_, ?_⟩
+  · intro rid h; simp [Acc.init] at h
+  · intro t t' rid h; simp [initSt, St.initWith, tmLookup] at h
+  · intro t rid h; simp [initSt, St.initWith, tmLookup] at h
+  · simp [Acc.tags, Acc.init]
+  · intro rid r h; simp [initSt, St.initWith] at h
 
 /-! ### elementary preservation lemmas -/
 
@@ -836,7 +845,7 @@ theorem Inv12_step_reopen (cfg : Cfg) (a : Acc) (s : St) (idx : Nat) :
   · rw [specObs12_ok_iff]
     refine ⟨?_, fun _ => rfl, fun _ _ => rfl⟩
     intro p hp; simp [obsOf, reqPairs] at hp
-  · exact Inv12_init cfg
+  · exact Inv12_fresh cfg
 
 theorem Inv12_step (cfg : Cfg) (a : Acc) (s : St) (op : Op) (idx : Nat) (hi : Inv cfg a s) (h : Inv12 cfg a s)
     (hen : opEnabled cfg s op = true) :
@@ -953,18 +962,18 @@ theorem opsOk_append (cfg : Cfg) : ∀ (o1 o2 : List Op) (s : St),
 
 /-- a prefix `h1` of the model's history is the history of a legal prefix of the operations -/
 theorem trace_prefix (cfg : Cfg) (ops : List Op) (h1 h2 : List (Op × Obs))
-    (ho : opsOk cfg St.init ops = true) (htr : comp.modelTrace cfg ops = h1 ++ h2) :
-    ∃ o1 o2, ops = o1 ++ o2 ∧ h1 = comp.trace cfg St.init o1 ∧ opsOk cfg St.init o1 = true ∧
+    (ho : opsOk cfg (initSt cfg) ops = true) (htr : comp.modelTrace cfg ops = h1 ++ h2) :
+    ∃ o1 o2, ops = o1 ++ o2 ∧ h1 = comp.trace cfg (initSt cfg) o1 ∧ opsOk cfg (initSt cfg) o1 = true ∧
       h2 = comp.trace cfg (reach cfg o1) o2 ∧ opsOk cfg (reach cfg o1) o2 = true := by
   have hops : ops = h1.map (·.1) ++ h2.map (·.1) := by
     have := congrArg (List.map (·.1)) htr
     simpa [TComp.modelTrace, trace_map_fst] using this
   refine ⟨h1.map (·.1), h2.map (·.1), hops, ?_⟩
-  have hsplit := trace_append cfg (h1.map (·.1)) (h2.map (·.1)) St.init
+  have hsplit := trace_append cfg (h1.map (·.1)) (h2.map (·.1)) (initSt cfg)
   rw [← hops] at hsplit
-  have htr' : comp.trace cfg St.init ops = h1 ++ h2 := htr
+  have htr' : comp.trace cfg (initSt cfg) ops = h1 ++ h2 := htr
   rw [htr'] at hsplit
-  have hlen : h1.length = (comp.trace cfg St.init (h1.map (·.1))).length := by
+  have hlen : h1.length = (comp.trace cfg (initSt cfg) (h1.map (·.1))).length := by
     rw [trace_length]; simp
   have := List.append_inj hsplit hlen
   have hok := ho
@@ -1137,9 +1146,9 @@ theorem specGo12_prefix (cfg : Cfg) : ∀ (h1 h2 : List (Op × Obs)) (a : Acc) (
     exact ⟨h.1, ih h2 _ _ h.2⟩
 
 /-- what is due, according to the accumulator, after a history -/
-def owedAfter (h : List (Op × Obs)) : List Nat := (accAfter {} h).owed
+def owedAfter (cfg : Cfg) (h : List (Op × Obs)) : List Nat := (accAfter (Acc.init cfg) h).owed
 
 /-- the requests whose deadline has fired, according to the accumulator, after a history -/
-def firedAfter (h : List (Op × Obs)) : List Nat := (accAfter {} h).fired
+def firedAfter (cfg : Cfg) (h : List (Op × Obs)) : List Nat := (accAfter (Acc.init cfg) h).fired
 
 end Scales.TagPool
